@@ -20,6 +20,8 @@ def _frac_of_float(x):
     if x != x or x in (float("inf"), float("-inf")):
         raise Undecided("non-finite float %r entered the symbolic domain" % x)
     f = Fraction(x)
+    if abs(f.numerator) <= (1 << 20):
+        return f  # an exact small dyadic such as 2**-52 (machine epsilon), however small
     if f.denominator > MAXDEN or abs(f.numerator) > (1 << 62):
         # a short decimal literal of the source text (1e-12, 0.1, 1.5e-8): read as the decimal the programmer
         # wrote; anything with more than 6 significant digits (a rounded irrational, a computed value) is refused
